@@ -134,13 +134,15 @@ def f32Div1000 (m : Nat) (k : Int) : Nat × Int :=
 def f32Ge1000 (m : Nat) (k : Int) : Bool :=
   if k ≥ 0 then m * 2 ^ k.toNat ≥ 1000 else m ≥ 1000 * 2 ^ (-k).toNat
 
-def rembUnitLoop : Nat → Nat → Int → Nat → Nat
-  | 0, _, _, p => p
-  | gas + 1, m, k, p =>
-    if f32Ge1000 m k ∧ p < 6 then
-      let (m', k') := f32Div1000 m k
-      rembUnitLoop gas m' k' (p + 1)
-    else p
+/-- the unit-selection loop of `String()` over an abstract float type:
+`for bitrate >= 1000.0 && powers < len(bitUnits)-1 { bitrate /= 1000.0; powers++ }` -/
+def unitLoop {F : Type} (ge1000 : F → Bool) (div1000 : F → F) (nUnits : Nat) : Nat → F → Nat → Nat
+  | 0, _, p => p
+  | gas + 1, x, p => if ge1000 x ∧ p < nUnits - 1 then unitLoop ge1000 div1000 nUnits gas (div1000 x) (p + 1) else p
+
+/-- instantiated with float32 as normalised `(m, k)` pairs -/
+def rembUnitLoop (gas m : Nat) (k : Int) (p : Nat) : Nat :=
+  unitLoop (fun (x : Nat × Int) => f32Ge1000 x.1 x.2) (fun x => f32Div1000 x.1 x.2) 7 gas (m, k) p
 
 /-- index into `bitUnits` chosen by `String()` (7 entries) -/
 def rembUnitIndex (bits : Nat) : Nat :=
